@@ -37,6 +37,9 @@ pub struct Painter<'p> {
     pub line_numbers_data: Option<line_numbers::LineNumbersData<'p>>,
     pub merge_conflict_lines: merge_conflict::MergeConflictLines,
     pub merge_conflict_commit_names: merge_conflict::MergeConflictCommitNames,
+    // Lines of the current run of removed/added lines have been painted already because the
+    // line buffer was full: the rest of the run is not what would pair with each other.
+    pub run_overflowed: bool,
 }
 
 // How the background of a line is filled up to the end
@@ -97,6 +100,7 @@ impl<'p> Painter<'p> {
             writer,
             config,
             line_numbers_data,
+            run_overflowed: false,
             merge_conflict_lines: merge_conflict::MergeConflictLines::new(),
             merge_conflict_commit_names: merge_conflict::MergeConflictCommitNames::new(),
         }
@@ -166,15 +170,35 @@ impl<'p> Painter<'p> {
 
     pub fn paint_buffered_minus_and_plus_lines(&mut self) {
         if self.minus_lines.is_empty() && self.plus_lines.is_empty() {
+            self.run_overflowed = false;
             return;
         }
-        paint_minus_and_plus_lines(
-            MinusPlus::new(&self.minus_lines, &self.plus_lines),
-            &mut self.line_numbers_data,
-            &mut self.highlighter,
-            &mut self.output_buffer,
-            self.config,
-        );
+        if self.run_overflowed {
+            // The i-th removed line still buffered is not the i-th of the run: painted on their
+            // own, the removed and the added lines are not paired with each other.
+            let no_lines = Vec::new();
+            for lines in [
+                MinusPlus::new(&self.minus_lines, &no_lines),
+                MinusPlus::new(&no_lines, &self.plus_lines),
+            ] {
+                paint_minus_and_plus_lines(
+                    lines,
+                    &mut self.line_numbers_data,
+                    &mut self.highlighter,
+                    &mut self.output_buffer,
+                    self.config,
+                );
+            }
+            self.run_overflowed = false;
+        } else {
+            paint_minus_and_plus_lines(
+                MinusPlus::new(&self.minus_lines, &self.plus_lines),
+                &mut self.line_numbers_data,
+                &mut self.highlighter,
+                &mut self.output_buffer,
+                self.config,
+            );
+        }
         self.minus_lines.clear();
         self.plus_lines.clear();
     }
